@@ -259,7 +259,18 @@ def check(run):
         if not found:
             run.violation({'kind': run.breaks[0]['kind'], 'broken_obligation': run.breaks[0], 'all_breaks': run.breaks[:5],
                            'searched': 'property oracle over %d + 20000 random and boundary histories on the real objects' % len(cases)}, concrete=False)
+    # 4. both levels through the public API: the connection model against the real H2Connection on the flow-control
+    #    projection, with directed programs (streams in every state + acknowledged INITIAL_WINDOW_SIZE changes)
+    from harness import t2check
+    from harness.props import C04
+    extra = [t2check.rerun(cfg, ops) for cfg, ops in C04.scenarios(run)]
+    res_conn = t2check.run_t2(run, 120 if run.tier == 'quick' else 3000, 30, C04.PARTS, weights=C04.WEIGHTS, rf_weights=C04.RF,
+                              extra_programs=extra, tag='C05conn')
+    if res_conn['mismatches'] and not run.violations:
+        t2check.report_mismatch(run, res_conn, C04.PARTS, oracle=None, tag='C05conn')
     cov = common.proof_coverage(r, extra_obligations=5)  # GenEq lemmas for the five window kernels
+    cov['connection_level_programs'] = len(res_conn['programs'])
+    cov['connection_level_disagreements'] = len(res_conn['mismatches'])
     cov.update({
         'evaluations': len(cases),
         'distinct_nontrivial': len(nontrivial),
